@@ -58,19 +58,20 @@ type Output struct {
 }
 
 type Ctx struct {
-	Prop     string
-	Tier     string // quick | thorough
-	Shard    int
-	NShards  int
-	Seed     int64
-	Deadline time.Time
-	Replay   *Replay
-	Only     string
-	Out      *Output
-	Race     bool
-	maxViol  int
-	nviol    int
-	scenEnd  time.Time
+	Prop       string
+	Tier       string // quick | thorough
+	Shard      int
+	NShards    int
+	Seed       int64
+	Deadline   time.Time
+	Replay     *Replay
+	NoMergeCap int64 // cap on the number of histories of the exploration without state merging (0 = 20000)
+	Only       string
+	Out        *Output
+	Race       bool
+	maxViol    int
+	nviol      int
+	scenEnd    time.Time
 }
 
 func (c *Ctx) Thorough() bool { return c.Tier == "thorough" }
